@@ -39,6 +39,8 @@ type propCfg struct {
 	assume    []string
 	maxProcs  int // GOMAXPROCS per shard (0 = default 2)
 	hangRerun bool
+	fuzz      string        // native fuzz target run in the thorough tier
+	fuzzTime  time.Duration // default 120 s
 }
 
 var defaultAssume = []string{
@@ -68,14 +70,14 @@ func cfgs() map[string]*propCfg {
 		c.assume = append(append([]string{}, defaultAssume...), c.assume...)
 		m[c.id] = c
 	}
-	add(&propCfg{id: "C01", rule: "cases: grammar-generated valid documents with layout control, 1-3 byte/token mutations of them and of repository documents, exhaustive small-alphabet strings, positional sweeps of ~250 atoms over block/buffer/8KiB offsets; each run on {AVX-512,AVX2} x {copy,no-copy}. Non-trivial: the reference oracle's verdict is MUST-ACCEPT or MUST-REJECT (EITHER cases are counted separately and never judged); distinct by FNV-64 of the input bytes."})
+	add(&propCfg{id: "C01", fuzz: "FuzzC01", rule: "cases: grammar-generated valid documents with layout control, 1-3 byte/token mutations of them and of repository documents, exhaustive small-alphabet strings, positional sweeps of ~250 atoms over block/buffer/8KiB offsets; each run on {AVX-512,AVX2} x {copy,no-copy}. Non-trivial: the reference oracle's verdict is MUST-ACCEPT or MUST-REJECT (EITHER cases are counted separately and never judged); distinct by FNV-64 of the input bytes."})
 	add(&propCfg{id: "C02", rule: "cases: constructed abstract documents (tiny/medium/wide/deep/key-collision/string-heavy/number-heavy profiles) rendered with generated white space and boundary alignment; walkers W1-W5 must reproduce the constructed document. Non-trivial: >=2 nesting levels, or a duplicate key, or the text crosses a 64-byte/1408-index/8KiB boundary; distinct by FNV-64 of the text."})
 	add(&propCfg{id: "C03", rule: "cases: number literals from the JSON grammar (exhaustive short literals over a reduced alphabet, int64/uint64 boundary pools, halfway cases, subnormals, random 1-25 digit integers, perturbed shortest renderings of random doubles) as array element and object value with every terminator; oracle math/big. Non-trivial: literal not of the form -?[1-9][0-9]{0,3}; distinct by literal+context."})
 	add(&propCfg{id: "C04", rule: "cases: strings built from pieces (ASCII, 2/3/4-byte UTF-8, 8 short escapes, \\uXXXX in any hex case, surrogate pairs, invalid escapes) placed at controlled offsets modulo 64 and distances to the end of input, as array element, key and value, in copy and no-copy mode on both kernels; expected bytes are constructive. Non-trivial: >=1 escape or multi-byte rune or the string crosses a 32-byte window; distinct by (text, offset)."})
-	add(&propCfg{id: "C05", hangRerun: true, rule: "cases: random bytes, token soup, truncations and 1-5 mutations of valid documents and repository documents, dense structural runs of every length around 8 KiB, deep nesting, sizes around internal buffer boundaries; Parse and ParseND, fresh and reused, both kernels and string modes, with guard-page placement. Non-trivial: input has >=2 structural characters or is a mutation of a valid document; distinct by FNV-64 of the bytes."})
-	add(&propCfg{id: "C06", rule: "cases: union of the C01 and C05 generators plus carry-state stress inputs, Parse and ParseND, each parsed with the AVX-512 and AVX2 kernels; outcome, tape and string buffer compared word for word. Non-trivial: input >= 65 bytes or with a partial last block and accepted by a kernel or mutated from a valid document; distinct by FNV-64 of the bytes."})
+	add(&propCfg{id: "C05", fuzz: "FuzzC05", hangRerun: true, rule: "cases: random bytes, token soup, truncations and 1-5 mutations of valid documents and repository documents, dense structural runs of every length around 8 KiB, deep nesting, sizes around internal buffer boundaries; Parse and ParseND, fresh and reused, both kernels and string modes, with guard-page placement. Non-trivial: input has >=2 structural characters or is a mutation of a valid document; distinct by FNV-64 of the bytes."})
+	add(&propCfg{id: "C06", fuzz: "FuzzC06", rule: "cases: union of the C01 and C05 generators plus carry-state stress inputs, Parse and ParseND, each parsed with the AVX-512 and AVX2 kernels; outcome, tape and string buffer compared word for word. Non-trivial: input >= 65 bytes or with a partial last block and accepted by a kernel or mutated from a valid document; distinct by FNV-64 of the bytes."})
 	add(&propCfg{id: "C07", race: true, raceRun: "^TestC07R", hangRerun: true, rule: "cases: documents > 8 KiB (valid, stage-1-invalid, stage-2-invalid) needing 3..120 index buffers x forced schedules of the producer/consumer hand-off (producer-greedy, consumer-greedy, bursts, random) driven through verif-tag hooks, plus un-gated runs under -race with injected yields. Non-trivial: run used more buffers than ring slots and reached a full ring or an empty channel with the consumer blocked; distinct by (text hash, decision list hash)."})
-	add(&propCfg{id: "C08", rule: "cases: line sequences (valid/invalid documents, blank and white-space-only lines, LF/CRLF, final newline or not, two documents on one line, a document split over lines, counts up to tens of thousands); expected outcome computed per line with Parse and the reference oracle. Non-trivial: >=2 non-blank lines and (a blank line or CRLF or an invalid line or a buffer boundary hit); distinct by FNV-64 of the bytes."})
+	add(&propCfg{id: "C08", fuzz: "FuzzC08", rule: "cases: line sequences (valid/invalid documents, blank and white-space-only lines, LF/CRLF, final newline or not, two documents on one line, a document split over lines, counts up to tens of thousands); expected outcome computed per line with Parse and the reference oracle. Non-trivial: >=2 non-blank lines and (a blank line or CRLF or an invalid line or a buffer boundary hit); distinct by FNV-64 of the bytes."})
 	add(&propCfg{id: "C09", hangRerun: true, rule: "cases: well-formed NDJSON streams x partitions into Read results (1 byte .. one giant read, line-aligned and mid-token) x result-channel capacity x reuse-channel use x GOMAXPROCS, plus reader errors injected at byte offsets (every offset for short streams). Non-trivial: >=2 chunks were produced and a fragment boundary fell inside a token or a blank-only fragment occurred; distinct by (stream hash, partition hash)."})
 	add(&propCfg{id: "C10", rule: "cases: parsed documents (single and ND), optionally edited in place at value positions, marshalled from root and inner iterators, Array and Elements; output checked by the reference parser against the model, then re-parsed for the fixed point. Non-trivial: >=1 string needing escapes or a float or a NOP gap, and >=2 levels; distinct by output hash."})
 	add(&propCfg{id: "C11", noasmRun: "^TestC11N", rule: "cases: tapes (parsed single/ND, edited, with deletions) x serializer mode x deserializer mode x history of earlier calls on the same Serializer and destination; deserialized document must equal the original incl. number types and float flags; blobs are re-read by a noasm build. Non-trivial: tape has a string and a container and (a NOP or >=2 roots or a flush boundary or a non-default history); distinct by (tape hash, mode pair)."})
@@ -86,7 +88,7 @@ func cfgs() map[string]*propCfg {
 	add(&propCfg{id: "C16", rule: "cases: string-heavy documents; input buffer overwritten after Parse/ParseND/ParseNDStream returns; copy vs no-copy on identical input; edit histories on (original, clones). Non-trivial: document has >=1 escaped and >=1 plain string, or the history edits both sides of a clone pair; distinct by hash."})
 	add(&propCfg{id: "C17", rule: "cases: tapes of every successful parse of the C02/C08 generators (both kernels, both string modes) and deserialized tapes of edited documents, validated by an independent tape-format checker written from the README. Non-trivial: >=2 nesting levels or >=2 roots or >=1 NOP run; distinct by tape hash."})
 	add(&propCfg{id: "C18", rule: "cases: float64 bit patterns: every binade x {min,max,random mantissas}, every power of ten 1e-323..1e308 +-2 ulp, +-64 ulp around the 1e-6/1e21 notation switches, all subnormal powers of two, integers x 10^k, 1..17 significant-digit classes, uniform random patterns; observed via SetFloat+StringCvt+MarshalJSON and via parsing a literal. Oracle: byte equality with encoding/json plus independent round-trip/shortest/format checks. Non-trivial: everything except integers of magnitude <= 16; distinct by bit pattern and path."})
-	add(&propCfg{id: "C19", hangRerun: true, rule: "cases: valid serialized blobs (4 modes) mutated at byte level (truncation, bit flip, substitution, splice) and structure-aware (decode framing, mutate tags/values/sizes/block types, re-frame), plus random bytes; inputs declaring sections > 4 MiB are skipped and counted. Non-trivial: mutant passes framing far enough that tape reconstruction starts; distinct by FNV-64 of the bytes."})
+	add(&propCfg{id: "C19", fuzz: "FuzzC19", hangRerun: true, rule: "cases: valid serialized blobs (4 modes) mutated at byte level (truncation, bit flip, substitution, splice) and structure-aware (decode framing, mutate tags/values/sizes/block types, re-frame), plus random bytes; inputs declaring sections > 4 MiB are skipped and counted. Non-trivial: mutant passes framing far enough that tape reconstruction starts; distinct by FNV-64 of the bytes."})
 	add(&propCfg{id: "C20", race: true, raceRun: "^TestC20", run: "^TestC20NONE$", hangRerun: true, rule: "cases: sets of 2..64 goroutine programs (Parse/ParseND/ParseNDStream, traversal, Clone+edit, Serialize 4 modes, Deserialize) on goroutine-private objects, run concurrently under -race with several GOMAXPROCS values; each transcript compared with the same program run alone. Non-trivial: >=4 goroutines overlapped and >=2 used the same codec pool kind; distinct by program-set hash."})
 	return m
 }
@@ -520,6 +522,10 @@ func runCheck(c *propCfg, tier string) int {
 	}
 	timedOut := ctx.Err() != nil
 	cancel()
+	fuzzExecs := int64(-1)
+	if tier == "thorough" && c.fuzz != "" && !timedOut {
+		fuzzExecs = runNativeFuzz(c, work, seed, &results, &infra)
+	}
 	sort.Slice(results, func(i, j int) bool { return results[i].base < results[j].base })
 
 	// 4. examine failing shards
@@ -639,6 +645,10 @@ func runCheck(c *propCfg, tier string) int {
 		"known_findings":      keys(knownPrinted),
 		"replay_files_run":    countReplays(c.id),
 	}
+	if fuzzExecs >= 0 {
+		cov["native_fuzz_target"] = c.fuzz
+		cov["native_fuzz_execs"] = fuzzExecs
+	}
 	ev := evidence{PropertyID: c.id, Tier: tier, Seed: seed, Level: c.level, Coverage: cov, Assumptions: c.assume,
 		WallS: time.Since(start).Seconds(), Violations: len(violations)}
 	eb, _ := json.MarshalIndent(ev, "", " ")
@@ -711,4 +721,76 @@ func tailFile(p string, n int) string {
 		lines = lines[len(lines)-n:]
 	}
 	return strings.Join(lines, "\n")
+}
+
+// runNativeFuzz runs a coverage-guided go fuzz campaign on the property's target (thorough tier). A failing input is
+// written as a replay file by the target itself (VERIF_OUT), and then handled like any other failing shard.
+func runNativeFuzz(c *propCfg, work string, seed int64, results *[]shardResult, infra *[]string) int64 {
+	bin := filepath.Join(root, "work", "bin", "props-fuzz.test")
+	cmd := exec.Command("go", "test", "-c", "-vet=off", "-fuzz=Fuzz", "-tags", "verif", "-o", bin, "./props")
+	cmd.Dir = filepath.Join(root, "harness")
+	cmd.Env = baseEnv()
+	if b, err := cmd.CombinedOutput(); err != nil {
+		*infra = append(*infra, "cannot build the fuzz binary: "+firstLines(string(b), 10))
+		return -1
+	}
+	ft := c.fuzzTime
+	if ft == 0 {
+		ft = 120 * time.Second
+	}
+	if v := os.Getenv("VERIF_FUZZTIME_S"); v != "" {
+		if n, err := strconv.Atoi(v); err == nil {
+			ft = time.Duration(n) * time.Second
+		}
+	}
+	base := filepath.Join(work, "fuzz")
+	cache := filepath.Join(root, "work", "fuzzcache", c.id)
+	_ = os.MkdirAll(cache, 0o755)
+	pkgDir := filepath.Join(root, "harness", "props")
+	crashDir := filepath.Join(pkgDir, "testdata", "fuzz", c.fuzz)
+	_ = os.RemoveAll(crashDir)
+	ctx, cancel := context.WithTimeout(context.Background(), ft+3*time.Minute)
+	defer cancel()
+	run := exec.CommandContext(ctx, bin, "-test.run=^$", "-test.fuzz=^"+c.fuzz+"$", "-test.fuzztime="+ft.String(), "-test.fuzzcachedir="+cache, "-test.parallel=16", "-test.timeout=0")
+	run.Dir = pkgDir
+	run.Env = append(baseEnv(), "VERIF_TIER=thorough", "VERIF_OUT="+base, "VERIF_ROOT="+root, "VERIF_SEED="+strconv.FormatInt(seed, 10))
+	out, err := run.CombinedOutput()
+	_ = os.WriteFile(base+".log", out, 0o644)
+	_ = os.RemoveAll(filepath.Join(pkgDir, "testdata"))
+	execs := int64(0)
+	for _, line := range strings.Split(string(out), "\n") {
+		if i := strings.Index(line, "execs: "); i >= 0 {
+			f := strings.Fields(line[i+7:])
+			if len(f) > 0 {
+				if n, e := strconv.ParseInt(f[0], 10, 64); e == nil && n > execs {
+					execs = n
+				}
+			}
+		}
+	}
+	r := shardResult{idx: 99, base: base, logPath: base + ".log"}
+	if err != nil {
+		r.exitCode = 1
+		if ctx.Err() != nil {
+			*infra = append(*infra, "native fuzz campaign did not stop in time")
+			return execs
+		}
+	}
+	*results = append(*results, r)
+	// prune the fuzz cache
+	if sz := dirSize(cache); sz > 50<<20 {
+		_ = os.RemoveAll(cache)
+	}
+	return execs
+}
+
+func dirSize(d string) int64 {
+	var n int64
+	filepath.Walk(d, func(_ string, info os.FileInfo, err error) error {
+		if err == nil && !info.IsDir() {
+			n += info.Size()
+		}
+		return nil
+	})
+	return n
 }
